@@ -327,6 +327,39 @@ fn run_malformed<F: MathFunction>(
                 "Shape::bind without the free variables returned Ok"
             );
             cx.ev.count("missing_bound_variable_cases");
+            // valid arguments stay valid whatever the evaluator object was
+            // used for before: the same Shape-level bulk evaluators on this
+            // shape with every variable bound (batch of 3), then on a shape
+            // with fewer variables and another batch size
+            let mut full: ShapeVars<f32> = ShapeVars::new();
+            for v in &free {
+                full.insert(v.index().unwrap(), 0.5);
+            }
+            let small = {
+                let mut c2 = fidget_core::Context::new();
+                let x = c2.x();
+                Shape::<F>::new(&c2, x).unwrap()
+            };
+            let stape = small.ez_float_slice_tape();
+            let r1 = e.eval_with_vars(&tape, &[0.1, 0.2, 0.3], &[0.0; 3], &[0.0; 3], &full).map(|o| o.len());
+            let r2 = e.eval(&stape, &[0.1; 5], &[0.0; 5], &[0.0; 5]).map(|o| o.len());
+            ensure!(
+                matches!(r1, Ok(3)) && matches!(r2, Ok(5)),
+                format!("error-on-valid-arguments-{what}"),
+                "Shape bulk evaluator reused on a shape with fewer variables: {r1:?} then {r2:?}"
+            );
+            let mut eg = Shape::<F>::new_grad_slice_eval();
+            let gtape = shape.ez_grad_slice_tape();
+            let sgtape = small.ez_grad_slice_tape();
+            let g = |n: usize| vec![Grad::from(0.25); n];
+            let r1 = eg.eval_with_vars(&gtape, &g(4), &g(4), &g(4), &full).map(|o| o.len());
+            let r2 = eg.eval(&sgtape, &g(2), &g(2), &g(2)).map(|o| o.len());
+            ensure!(
+                matches!(r1, Ok(4)) && matches!(r2, Ok(2)),
+                format!("error-on-valid-arguments-{what}"),
+                "Shape grad evaluator reused on a shape with fewer variables: {r1:?} then {r2:?}"
+            );
+            cx.ev.count("shape_evaluator_reuse_on_fewer_variables_cases");
         }
     }
     Ok(())
